@@ -13,7 +13,7 @@ import (
 	"tglib"
 )
 
-func init() { register("C06", "exploration", runC06) }
+func init() { register("C06", "model_checking", runC06) }
 
 func c06messages() [][]byte {
 	sn := models.Snssai{Sst: 1, Sd: "010203"}
@@ -148,6 +148,9 @@ func c06history(r *report.Report, l *report.Local, msgs [][]byte, ops []c06op, a
 		if short {
 			desc += fmt.Sprintf(" send(msg%d,h=%d,new=%v)", op.msg, op.h, op.newCtx)
 		}
+		// model state: (algorithm pair, COUNT the receiver expects next); transition: one send operation from it
+		l.State(c06key(alg, expect, -1))
+		l.Transition(c06key(alg, expect, oi))
 		if op.newCtx {
 			expect = 0
 		}
@@ -193,6 +196,8 @@ func c06history(r *report.Report, l *report.Local, msgs [][]byte, ops []c06op, a
 			r.Violate("protect/new-context-does-not-reset-DL", cs, fmt.Sprintf("DL COUNT %#x", ue.DLCount.Get()), seq)
 		}
 	}
+	l.State(c06key(alg, expect, -1))
+	l.Trace()
 	if short {
 		l.Case(desc, len(seq) >= 2, fmt.Sprint(expect))
 	} else {
@@ -219,4 +224,9 @@ func c06counter(r *report.Report) {
 			r.Violate("counter/arithmetic", fmt.Sprintf("value %#x", v), "Set/Get/AddOne/SQN/Overflow disagree with 24-bit integer arithmetic", nil)
 		}
 	})
+}
+
+// c06key: a collision-free packing of (algorithm pair, 24-bit COUNT, operation index or -1) for the state accounting.
+func c06key(alg [2]uint8, count uint32, op int) uint64 {
+	return uint64(alg[0])<<56 | uint64(alg[1])<<48 | uint64(uint16(op+1))<<24 | uint64(count&0xffffff)
 }
